@@ -86,6 +86,7 @@ class Run:
         self.assumptions: list[str] = []
         self.caps: list[str] = []
         self.exhaustive = True
+        self.mx = {}
         self.rule = ''
         kf = json.load(open(KNOWN)) if os.path.exists(KNOWN) else {}
         self.known = [
@@ -139,6 +140,9 @@ class Run:
             self.violation(v['key'], v['what'], v.get('detail'))
         for c in part.get('caps', []):
             self.cap(c)
+        for k, v in part.get('mx', {}).items():
+            if v > self.mx.get(k, float('-inf')):
+                self.mx[k] = v
 
     # -- finish ------------------------------------------------------------
     def finish(self) -> int:
@@ -181,6 +185,7 @@ class Run:
             'exhaustive': bool(self.exhaustive),
             'caps_hit': self.caps,
             'known_findings_hit': self.known_hit,
+            'max_stats': {k: float(f'{v:.4g}') for k, v in self.mx.items()},
             'tree': tree_identity(),
             **self.notes,
         }
@@ -210,6 +215,11 @@ class Part:
     def __init__(self):
         self.c, self.samples, self.distinct = {}, [], {}
         self.viol, self.caps = [], []
+        self.mx = {}
+
+    def maxstat(self, key, value):
+        if value == value and value > self.mx.get(key, float('-inf')):
+            self.mx[key] = value
 
     def count(self, key, n=1):
         self.c[key] = self.c.get(key, 0) + n
@@ -237,7 +247,7 @@ class Part:
     def dump(self):
         return {'c': self.c, 'samples': self.samples,
                 'distinct': {k: list(v) for k, v in self.distinct.items()},
-                'viol': self.viol, 'caps': self.caps}
+                'viol': self.viol, 'caps': self.caps, 'mx': self.mx}
 
 
 def _worker(args):
